@@ -746,7 +746,11 @@ class AsyncFIXConnection:
         """
         msg_sec_no = self._session.set_next_num_in(msg)
 
-        if msg_sec_no <= 0:
+        new_seq_no = 0
+        if msg.msg_type == FMsg.SEQUENCERESET and FTag.NewSeqNo in msg:
+            new_seq_no = int(msg[FTag.NewSeqNo])
+
+        if msg_sec_no <= 0 and new_seq_no <= 0:
             self.log.warning(f"Trying to finalize invalid {msg=}")
             return
 
@@ -760,13 +764,16 @@ class AsyncFIXConnection:
 
         self._message_last_time = time.time()
 
-        self._journaler.persist_msg(raw_msg, self._session, MessageDirection.INBOUND)
-
-        if msg.msg_type == FMsg.SEQUENCERESET:
-            # Set journal at new NewSeqNo
-            self._journaler.set_seq_num(
-                self._session, next_num_in=int(msg[FTag.NewSeqNo])
+        if new_seq_no <= 0 or new_seq_no > int(msg[FTag.MsgSeqNum]):
+            self._journaler.persist_msg(
+                raw_msg, self._session, MessageDirection.INBOUND
             )
+        # else: reset backwards, message itself is above NewSeqNo, set_seq_num() would
+        #   cleanup it from journal anyway
+
+        if new_seq_no > 0:
+            # Set journal at new NewSeqNo
+            self._journaler.set_seq_num(self._session, next_num_in=new_seq_no)
 
     async def _process_testrequest(self, testreq_msg: FIXMessage):
         """Handles TestRequest(35=1).
